@@ -79,8 +79,21 @@
         : __CPROVER_rw_ok((it)->data, MP_META(it).allocated * sizeof(struct cbor_pair))))
 
 #define TG_META(it) ((it)->metadata.tag_metadata)
-#define TAG_VALID(it) (ITEM_RW(it) && (it)->type == CBOR_TYPE_TAG)
+/* data is never used for tags but IS handed to free on release: it must be NULL (as cbor_new_tag sets it) */
+#define TAG_VALID(it) (ITEM_RW(it) && (it)->type == CBOR_TYPE_TAG && (it)->data == NULL)
 
 /* ghost index used to speak about "the element at an arbitrary position" in container contracts */
 extern size_t g_k;
+/* ghost snapshot taken by a harness before the call: the element (or pair, or reference count) at the watched
+ * position.  __CPROVER_old() cannot be used for this: it would read the slot unconditionally, also when the
+ * index is out of range (tool: ternaries inside old() are rejected, unguarded reads are flagged).
+ * valid == false (what library callers see) makes every clause that mentions the snapshot vacuous. */
+struct verif_snap_ghost {
+  bool valid;
+  cbor_item_t *item;  /* array slot / chunk */
+  cbor_item_t *key;   /* map pair */
+  cbor_item_t *value;
+  size_t refcount;    /* reference count of the element an accessor is about to hand out */
+};
+extern struct verif_snap_ghost g_s;
 #endif
